@@ -45,7 +45,7 @@ type actxSliceVar struct {
 	escapes  bool
 	nonLocal bool
 	writes   []ast.Node // statements that may make it non-empty
-	loops    []*ast.RangeStmt
+	loops    []ast.Stmt // *ast.RangeStmt over the slice, or *ast.ForStmt bounded by its length
 	inits    int
 }
 
@@ -98,6 +98,24 @@ func ruleDeadLoop(c *Ctx) []Obligation {
 					if id, ok := ast.Unparen(x.X).(*ast.Ident); ok {
 						if v := get(info.Uses[id]); v != nil {
 							v.loops = append(v.loops, x)
+						}
+					}
+				case *ast.ForStmt:
+					// counted form of the same loop: `for i := …; i < len(s); …`
+					parents[x] = loops
+					if be, ok := ast.Unparen(x.Cond).(*ast.BinaryExpr); ok && (be.Op == token.LSS || be.Op == token.GTR || be.Op == token.NEQ) {
+						for _, side := range []ast.Expr{be.X, be.Y} {
+							if ce, ok := ast.Unparen(side).(*ast.CallExpr); ok && len(ce.Args) == 1 {
+								if fid, ok := ce.Fun.(*ast.Ident); ok && fid.Name == "len" {
+									if _, isBuiltin := info.Uses[fid].(*types.Builtin); isBuiltin {
+										if id, ok := ast.Unparen(ce.Args[0]).(*ast.Ident); ok {
+											if v := get(info.Uses[id]); v != nil {
+												v.loops = append(v.loops, x)
+											}
+										}
+									}
+								}
+							}
 						}
 					}
 				case *ast.AssignStmt:
@@ -163,7 +181,7 @@ func ruleDeadLoop(c *Ctx) []Obligation {
 					continue
 				}
 				// fixpoint: dead = loops over v that no effective write can precede
-				dead := map[*ast.RangeStmt]bool{}
+				dead := map[ast.Stmt]bool{}
 				for _, l := range v.loops {
 					dead[l] = true
 				}
@@ -185,7 +203,7 @@ func ruleDeadLoop(c *Ctx) []Obligation {
 					}
 					return true
 				}
-				reaches := func(w ast.Node, l *ast.RangeStmt) bool {
+				reaches := func(w ast.Node, l ast.Stmt) bool {
 					if inside(w, l) {
 						return false // handled through `effective`
 					}
@@ -199,7 +217,7 @@ func ruleDeadLoop(c *Ctx) []Obligation {
 					}
 					return false
 				}
-				witness := map[*ast.RangeStmt]ast.Node{}
+				witness := map[ast.Stmt]ast.Node{}
 				for changed := true; changed; {
 					changed = false
 					for _, l := range v.loops {
